@@ -4,8 +4,9 @@
 //! Acyclic requirement graphs (inputs, decisions, knowledge models, decision services) are
 //! generated, rendered as DMN XML, loaded with `dmntk_model::parse` + `ModelEvaluator::new`, and
 //! every invocable is evaluated with `evaluate_invocable` on generated input contexts — plain,
-//! with additional entries outside the requirement closure, and with entries named like
-//! required decisions / knowledge models (finding F14).  The same graph — the logic as syntax
+//! with additional entries outside the requirement closure, and with entries named like the
+//! variables of decisions / knowledge models / decision services (the repaired finding F14: they
+//! are outside the closure unless they are input decisions of an invoked service).  The same graph — the logic as syntax
 //! trees delivered by the real parser in the scope the builder uses — goes to the Lean model
 //! (`Dmn.Drg.evaluateInvocable`) and the specification (`Dmn.Drg.Spec.evaluateInvocable`).
 
@@ -1141,6 +1142,10 @@ pub fn cyclic_corpus() -> Vec<(&'static str, Graph)> {
       },
     ),
     (
+      "kind-blind: a knowledge requirement naming a decision that requires the requiring decision",
+      Graph { inputs: vec![], decisions: vec![dec("_a", "A", Ty::Untyped, &[], &[], &["_b"], lit("1")), dec("_b", "B", Ty::Untyped, &[], &["_a"], &[], lit("A"))], bkms: vec![], services: vec![] },
+    ),
+    (
       "a decision requiring itself",
       Graph { inputs: vec![], decisions: vec![dec("_a", "A", Ty::Untyped, &[], &["_a"], &[], lit("1"))], bkms: vec![], services: vec![] },
     ),
@@ -1395,7 +1400,7 @@ pub fn run(cfg: &Cfg) -> Report {
   }
   let mut rep = Report::new(
     "C04",
-    "acyclic requirement graphs of 2..8 nodes (decisions, knowledge models, decision services) over 1..3 typed inputs — diamonds, a decision required directly and through a service, knowledge models requiring knowledge models and services, literal / boxed context / boxed invocation / boxed function definition / relation logic, variables named like inputs or other decisions, typed and untyped variables — rendered as DMN XML and loaded by the real parser and builder; every invocable evaluated on generated input contexts (plain, plus entries outside the requirement closure, plus entries named like variables of decisions / knowledge models / services). Non-trivial: the invocable has at least one requirement edge in its closure (closureNames non-empty) or the graph has ≥ 3 nodes; distinct by (graph, invocable, input). Cases whose values the exact-arithmetic model cannot compute are counted as skipped_unsupported.",
+    "acyclic requirement graphs of 2..8 nodes (decisions, knowledge models, decision services) over 1..3 typed inputs — diamonds, a decision required directly and through a service, knowledge models requiring knowledge models and services, literal / boxed context / boxed invocation / boxed function definition / relation logic, variables named like inputs or other decisions, typed and untyped variables — rendered as DMN XML and loaded by the real parser and builder; every invocable evaluated on generated input contexts (plain, plus entries outside the requirement closure, plus an entry for every variable of a decision / knowledge model / service outside the closure). Non-trivial: the invocable has at least one requirement edge in its closure (closureNames non-empty) or the graph has ≥ 3 nodes; distinct by (graph, invocable, input). Cases whose values the exact-arithmetic model cannot compute are counted as skipped_unsupported.",
   );
   let mut rng = Rng::new(cfg.seed);
   let thorough = cfg.tier == "thorough";
@@ -1406,14 +1411,27 @@ pub fn run(cfg: &Cfg) -> Report {
   for k in 0..n_graphs {
     graphs.push((format!("random-{}", k), gen_graph(&mut rng)));
   }
-  // graphs with a requirement cycle: the predicate must reject them (they are not evaluated:
-  // the implementation overflows its stack on them, C12)
+  // graphs with a requirement cycle: the predicate must reject them, and so must
+  // `ModelEvaluator::new` (`check_requirements`) and its model `Drg.checkRequirements`
   for (name, g) in cyclic_corpus() {
     if let Some(gs) = graph_sexp(&g) {
       let a = model.ask(&format!("(c04 acyclic {})", gs));
       rep.hit(&format!("cyclic-corpus:{}", a));
-      if a != "cyclic" {
+      // `check_requirements` resolves identifiers without regard to the kind of element:
+      // the last graph has a cycle for it only
+      if a != "cyclic" && !name.starts_with("kind-blind") {
         rep.disagree(Kind::ImplVsModel, "acyclic", "Drg.acyclic accepts a graph with a requirement cycle", name, "cyclic", &a);
+      }
+      let b = model.ask(&format!("(c04 build {})", gs));
+      let xml = graph_xml(&g);
+      let (build, _, end) = run_child(&xml, &[], 20_000);
+      rep.case(&format!("build {}", gs), true);
+      rep.hit(&format!("cyclic-corpus:model-{}:implementation-{}", b, if build.is_empty() { end.as_str() } else { build.as_str() }));
+      if build != "builderror" {
+        rep.disagree(Kind::ImplVsSpec, "build", "ModelEvaluator::new accepts (or dies on) a graph with a requirement cycle", &format!("{} {}", name, xml), &format!("{} {}", build, end), "builderror");
+      }
+      if b != "cyclic-requirements" {
+        rep.disagree(Kind::ImplVsModel, "build", "Drg.checkRequirements accepts a graph with a requirement cycle", name, &build, &b);
       }
     }
   }
@@ -1531,11 +1549,13 @@ pub fn run(cfg: &Cfg) -> Report {
             outside.push((n.clone(), value_text(Ty::Number, &mut rng)));
           }
         }
-        // entries named like variables in the closure (they override: finding F14)
+        // an entry for every variable of a decision / knowledge model / decision service outside
+        // the closure (before the repair of finding F14 such entries replaced the values)
         let mut clash = base.clone();
-        for n in &closure {
-          if var_names.contains(n) && !base.iter().any(|(m, _)| m == n) && rng.chance(2, 3) {
-            clash.push((n.clone(), value_text(Ty::Number, &mut rng)));
+        for n in &var_names {
+          if !closure.contains(n) && !base.iter().any(|(m, _)| m == n) {
+            let v = if shape == "f14" { "100".to_string() } else { value_text(Ty::Number, &mut rng) };
+            clash.push((n.clone(), v));
           }
         }
         let base_ix = pend.len();
@@ -1571,14 +1591,22 @@ pub fn run(cfg: &Cfg) -> Report {
       match Sexp::parse(both).as_ref().and_then(|x| x.as_list()) {
         Some([m, s]) => (m.to_string(), s.to_string()),
         Some([m, s, _]) => (m.to_string(), s.to_string()),
+        Some([m, s, _, _]) => (m.to_string(), s.to_string()),
         _ => (both.clone(), both.clone()),
       }
     };
     // the generated graphs are acyclic by construction: the decidable predicate must say so
     if let Some(a) = answers.first() {
-      if a.ends_with(" cyclic)") {
+      // … and `check_requirements` must accept them (the implementation built the evaluator
+      // for these graphs, or the cases below are all build errors)
+      if a.ends_with(" cyclic-requirements)") {
+        rep.disagree(Kind::ImplVsModel, "build", "Drg.checkRequirements rejects a graph that is acyclic by construction", &xml, "builds", "cyclic-requirements");
+      } else if a.ends_with(" builds)") {
+        rep.hit("build:accepted");
+      }
+      if a.contains(" cyclic ") {
         rep.disagree(Kind::ImplVsModel, "acyclic", "Drg.acyclic rejects a graph that is acyclic by construction", &xml, "acyclic", "cyclic");
-      } else if a.ends_with(" acyclic)") {
+      } else if a.contains(" acyclic ") {
         rep.hit("acyclic:accepted");
       }
     }
@@ -1650,13 +1678,17 @@ pub fn run(cfg: &Cfg) -> Report {
         rep.disagree(Kind::ImplVsSpec, "eval_decision_spec", sig, &input_desc, &p.implementation, &s);
       }
       // ---- the property, last sentence, on the implementation alone: non-interference
-      if p.variant == "outside" {
+      if p.variant == "outside" || p.variant == "clash" {
         if let Some(b) = p.base {
           if pend[b].implementation != p.implementation {
             rep.disagree(
               Kind::ImplVsSpec,
               "irrelevant_inputs",
-              "input entries outside the requirement closure change the result",
+              if p.variant == "clash" {
+                "an input entry named like the variable of a required decision / knowledge model / decision service replaces its value (overwrite by input data)"
+              } else {
+                "input entries outside the requirement closure change the result"
+              },
               &format!("{} versus base {}", input_desc, pend[b].input_text),
               &p.implementation,
               &pend[b].implementation,
